@@ -313,7 +313,7 @@ func Check(c *core.Ctx) (map[string]any, []string, error) {
 	// judge direction: random deeper programs generated here, classified by TLC
 	nJudge := 3000
 	if c.Thorough() {
-		nJudge = 40000
+		nJudge = 12000
 	}
 	var judged map[string]any
 	if os.Getenv("C03_FAMS") == "" || os.Getenv("C03_JUDGE") != "" {
